@@ -187,7 +187,7 @@ def _field_sdl(f):
     return "%s%s: %s%s" % (f["name"], args, render_type(f["type"]), _dep_sdl(f.get("deprecated")))
 
 
-def render_sdl(schema, rng=None, order=None, extend=False, comments=False, multiline=True):
+def render_sdl(schema, rng=None, order=None, extend=False, comments=False, multiline=True, declare_builtins=False):
     """order: list of names (default schema.order). extend: split a random subset of the
     fields of some object types into `extend type` blocks (needs rng)."""
     s = schema
@@ -242,6 +242,9 @@ def render_sdl(schema, rng=None, order=None, extend=False, comments=False, multi
             one = " @oneOf" if d.get("one_of") else ""
             out.append(desc + "input %s%s {%s%s\n}" % (n, one, sep, sep.join("%s: %s" % (f, render_type(t)) for f, t in d["fields"])))
     out += ext_blocks
+    if declare_builtins:
+        # schema dumps of several servers / tools list the built-in scalars explicitly; that is legal SDL
+        out = ["scalar %s" % b for b in (declare_builtins if isinstance(declare_builtins, list) else BUILTIN_SCALARS)] + out
     if any(s.types[n].get("one_of") for n in names if s.types[n]["kind"] == "input"):
         out.insert(0, "directive @oneOf on INPUT_OBJECT")
     return "\n\n".join(out) + "\n"
